@@ -1218,7 +1218,7 @@ class ParticleNode(SyntaxNodeBase):
             if not isinstance(value, Particle):
                 raise TypeError(f"All particles must be a Particle. {value} given")
         if isinstance(values, list):
-            self._order = values
+            self._order = list(values)
             values = set(values)
         self._particles = values
 
@@ -1231,7 +1231,8 @@ class ParticleNode(SyntaxNodeBase):
         """
         if not isinstance(value, Particle):
             raise TypeError(f"All particles must be a Particle. {value} given")
-        self._order.append(value)
+        if value not in self._order:
+            self._order.append(value)
         self._particles.add(value)
 
     def remove(self, value):
@@ -1243,10 +1244,8 @@ class ParticleNode(SyntaxNodeBase):
         """
         if not isinstance(value, Particle):
             raise TypeError(f"All particles must be a Particle. {value} given")
+        # its place in the order is kept: a particle that comes back is printed where it stood
         self._particles.remove(value)
-        # a particle that was given through the particles setter as a set has no place in the order
-        if value in self._order:
-            self._order.remove(value)
 
     @property
     def _particles_sorted(self):
@@ -1260,15 +1259,10 @@ class ParticleNode(SyntaxNodeBase):
 
         :rtype: list
         """
-        ret = self._order
-        ret_set = set(ret)
-        remainder = self.particles - ret_set
-        extras = ret_set - self.particles
-        for straggler in sorted(remainder):
-            ret.append(straggler)
-        for useless in extras:
-            ret.remove(useless)
-        return ret
+        # the order is a record of where each particle stood; it is neither pruned nor extended here,
+        # so that formatting (an observation) never changes what a later format prints
+        ret = [p for p in self._order if p in self.particles]
+        return ret + sorted(self.particles - set(ret))
 
     def format(self):
         self._reverse_engineer_format()
